@@ -327,7 +327,7 @@ corpus_types! {
     enum Basic { A, B, C }
 
     #[derives(Serialize, Deserialize, Debug, Clone, PartialEq)]
-    enum Data { Unit, New(u16), Tup(u8, i32), Rec { a: u64, b: Option<bool> }, Zero(), ZeroRec {}, Nested(Basic), Str(String) }
+    enum Data { Unit, New(u16), Tup(u8, i32), Rec { a: u64, b: Option<bool> }, Zero(), ZeroRec {}, Nested(Basic), Str(String), One { only: u32 } }
 
     #[derives(Serialize, Deserialize, Debug, Clone, PartialEq)]
     struct Nested { p: Prims, d: Data, v: Vec<Data>, o: Option<Box<NewT>>, t: (u8, (u16, u32), [i16; 3]), u: UnitS }
